@@ -98,7 +98,7 @@ package boltz
 // re-read after the write; for update the initial state read before it) is registered last on the context's transaction,
 // preceded by exactly one for the parent store if there is one
 //@ func (*BaseStore).Create
-//@   props C08 C07 C03 C15
+//@   props C08 C07 C03 C15 C16
 //@   errflow
 //@   nosafety
 //@   modifies *, ocCnt, ocFn, ocRecv, cxN, cxWho, cxPhase, cxCtx, cxPersist, edDone
@@ -124,7 +124,7 @@ package boltz
 //@   ensures[unhandled-registers-nothing] !result0 ==> ocSame()
 //@   ensures[unhandled-notifies-no-constraint] !result0 ==> cxSame()
 //@ func (*BaseStore).Update
-//@   props C08 C07 C03 C15
+//@   props C08 C07 C03 C15 C16
 //@   errflow
 //@   nosafety
 //@   modifies *, ocCnt, ocFn, ocRecv, cxN, cxWho, cxPhase, cxCtx, cxPersist, edDone
@@ -155,7 +155,7 @@ package boltz
 //@   ensures[logged] pdN == old(pdN) + 1 && pdWho == sto(old(pdWho), old(pdN), ref(self)) && pdId == sto(old(pdId), old(pdN), id)
 //@   ensures[a-delete-flow] result0 != nil ==> fresh(result0) && istype(result0, *EntityChangeState) && as(result0, *EntityChangeState).Ctx == ctx && as(result0, *EntityChangeState).ChangeType == EntityDeleted && as(result0, *EntityChangeState).EntityId == id
 //@ func (*BaseStore).processDeleteConstraints
-//@   props C07 C08 C03 C05 C06 C15
+//@   props C07 C08 C03 C05 C06 C15 C16
 //@   errflow
 //@   nosafety
 //@   modifies *, ocCnt, ocFn, ocRecv, cxN, cxWho, cxPhase, cxCtx, cxPersist, edDone
@@ -173,7 +173,7 @@ package boltz
 //@   pure
 //@   ensures[the-child-store] result != nil && ref(result) == cssStore(self)
 //@ func (*BaseStore).DeleteById
-//@   props C08 C07 C06 C15
+//@   props C08 C07 C06 C15 C16
 //@   errflow
 //@   nosafety
 //@   modifies *, ocCnt, ocFn, ocRecv, ecsParent, cxN, cxWho, cxPhase, cxCtx, cxPersist, edDone, pdN, pdWho, pdId
@@ -281,6 +281,15 @@ package boltz
 //@   modifies self.tx, ocCnt, ocFn, ocRecv
 //@   ensures[bound] self.tx == tx && result != nil
 //@   ensures[commit-handler-registered-once] tx != nil ==> regOne(tx, fnid("(*github.com/openziti/storage/boltz.mutateContext).handleCommit$bound"), self) && ocOthersSame(tx)
+//@   ensures[no-transaction-no-registration] tx == nil ==> ocSame()
+
+// a context made for a transaction is bound to it the same way: one commit handler, or commit actions would never run
+//@ func NewTxMutateContext
+//@   props C08
+//@   nosafety
+//@   modifies ocCnt, ocFn, ocRecv
+//@   ensures[a-context-bound-to-the-transaction] result != nil && istype(result, *mutateContext) && fresh(as(result, *mutateContext)) && as(result, *mutateContext).tx == tx
+//@   ensures[commit-handler-registered-once] tx != nil ==> regOne(tx, fnid("(*github.com/openziti/storage/boltz.mutateContext).handleCommit$bound"), as(result, *mutateContext)) && ocOthersSame(tx)
 //@   ensures[no-transaction-no-registration] tx == nil ==> ocSame()
 
 // ---- registration styles: every Add* appends exactly one adapter that listens for the given change type and all
